@@ -297,8 +297,8 @@ func genBehaviour(r *hx.Rng, role string, failPct int, maxLat int) behaviour {
 	b := behaviour{Lat: r.Intn(maxLat + 1)}
 	c := r.Intn(100)
 	if c < failPct {
-		b.Beh = r.Pick([]string{"crash", "signal", "empty", "garbage", "unterminated"})
-		if b.Beh == "garbage" && r.Chance(1, 2) {
+		b.Beh = r.Pick([]string{"crash", "signal", "empty", "garbage", "unterminated", "trailing"})
+		if (b.Beh == "garbage" || b.Beh == "trailing") && r.Chance(1, 2) {
 			b.Code = 1
 		}
 		return b
@@ -954,7 +954,7 @@ func execRun(e *env, idx int, rs *runSpec) *runResult {
 							strict = true
 						case b.Beh == "crash":
 							strict = role == "sc" // stdout empty, status 2; for pyflakes the traceback is output
-						case b.Beh == "garbage":
+						case b.Beh == "garbage", b.Beh == "trailing":
 							strict = role == "sc"
 						case b.Beh == "unterminated":
 							strict = role == "sc"
@@ -1083,6 +1083,112 @@ func directedRun(r *hx.Rng, nfiles int) *runSpec {
 	rs.Sched["2"] = behaviour{Beh: "ok", Lat: 250}
 	rs.Sched["3"] = behaviour{Beh: "issues", Lat: 250, Issues: []issue{{Code: 1, Line: 1, Col: 1, Msg: "undefined name 'x'"}}}
 	return rs
+}
+
+// lintWithTools lints src with the stand-in tools configured as sc / py command lines and returns
+// the diagnostics, the error and the tool log
+func lintWithTools(e *env, dir, src string, sched map[string]behaviour, sc, py func(def string) string) ([]*actionlint.Error, error, []toolRec) {
+	hx.Must(os.MkdirAll(dir, 0o755))
+	schedPath := filepath.Join(dir, "sched.json")
+	sb, _ := json.Marshal(sched)
+	hx.Must(os.WriteFile(schedPath, sb, 0o644))
+	logPath := filepath.Join(dir, "tool.log")
+	hx.Must(os.WriteFile(logPath, nil, 0o644))
+	def := func(role string) string {
+		return fmt.Sprintf("%s -S -E %s %s %s %s", e.python, e.tool, role, schedPath, logPath)
+	}
+	opts := &actionlint.LinterOptions{Shellcheck: sc(def("sc")), Pyflakes: py(def("py")),
+		OnRulesCreated: func(rules []actionlint.Rule) []actionlint.Rule {
+			out := []actionlint.Rule{}
+			for _, r := range rules {
+				if r.Name() == "shellcheck" || r.Name() == "pyflakes" {
+					out = append(out, r)
+				}
+			}
+			return out
+		}}
+	l, err := actionlint.NewLinter(io.Discard, opts)
+	hx.Must(err)
+	errs, lerr := l.Lint(filepath.Join(dir, "w.yaml"), []byte(src), nil)
+	time.Sleep(50 * time.Millisecond)
+	return errs, lerr, readToolLog(logPath)
+}
+
+// twinCheck: "every run: script ... is passed to the tool exactly once": also when two steps have
+// scripts that are equal after placeholder replacement (or equal altogether); every one of them
+// gets its diagnostics at its own run: key.
+func twinCheck(e *env, out string) []failure {
+	src := "on: push\njobs:\n  a:\n    runs-on: ubuntu-latest\n    steps:\n" +
+		"      - run: print('T9001X ${{ github.sha }}')\n        shell: python\n" +
+		"      - run: print('T9001X ${{ github.ref }}')\n        shell: python\n" +
+		"      - run: echo T9002X ${{ github.sha }}\n" +
+		"      - run: echo T9002X ${{ github.ref }}\n" +
+		"  b:\n    runs-on: ubuntu-latest\n    steps:\n" +
+		"      - run: print('T9001X ${{ github.sha }}')\n        shell: python\n" +
+		"      - run: echo T9002X ${{ github.sha }}\n"
+	sched := map[string]behaviour{
+		"9001": {Beh: "issues", Issues: []issue{{Code: 1, Line: 1, Col: 1}}},
+		"9002": {Beh: "issues", Issues: []issue{{Code: 2086, Line: 1, Col: 6}}},
+	}
+	id := func(s string) string { return s }
+	errs, lerr, log := lintWithTools(e, filepath.Join(out, "twins"), src, sched, id, id)
+	var fails []failure
+	if lerr != nil {
+		return []failure{{What: "run with twin scripts failed: " + lerr.Error(), Key: "twins:fatal", Extra: src}}
+	}
+	started := map[string]int{}
+	for _, t := range log {
+		if t.Ev == "S" {
+			started[t.Role+"/"+t.Marker]++
+		}
+	}
+	if started["py/9001"] != 3 || started["sc/9002"] != 3 {
+		fails = append(fails, failure{What: fmt.Sprintf("scripts that are equal after placeholder replacement: 3 python and 3 shell run steps, the tools were started %d and %d times", started["py/9001"], started["sc/9002"]),
+			Key: "twins:passed", Extra: src})
+	}
+	lines := map[int]int{}
+	for _, d := range errs {
+		lines[d.Line]++
+	}
+	for _, ln := range []int{6, 8, 10, 11, 15, 17} {
+		if lines[ln] != 1 {
+			fails = append(fails, failure{What: fmt.Sprintf("scripts that are equal after placeholder replacement: the issue of the step at line %d became %d diagnostics at its run: key (expected 1)", ln, lines[ln]),
+				Key: "twins:diagnostics", Extra: src})
+			break
+		}
+	}
+	return fails
+}
+
+// toolPathCheck: the configured tool is the program run: a path that contains a space is first
+// looked up as it is (a decoy program at its first word must not be run instead)
+func toolPathCheck(e *env, out string) []failure {
+	dir := filepath.Join(out, "toolpath")
+	hx.Must(os.MkdirAll(filepath.Join(dir, "tool dir"), 0o755))
+	decoyLog := filepath.Join(dir, "decoy.log")
+	hx.Must(os.WriteFile(filepath.Join(dir, "tool"), []byte("#!/bin/sh\necho decoy >> '"+decoyLog+"'\ncat > /dev/null\necho '[]'\n"), 0o755))
+	src := "on: push\njobs:\n  a:\n    runs-on: ubuntu-latest\n    steps:\n      - run: echo T9003X\n"
+	sched := map[string]behaviour{"9003": {Beh: "issues", Issues: []issue{{Code: 2086, Line: 1, Col: 6}}}}
+	wrap := func(def string) string {
+		// a wrapper script at a path with a space, running the stand-in tool
+		w := filepath.Join(dir, "tool dir", "shellcheck")
+		hx.Must(os.WriteFile(w, []byte("#!/bin/sh\nexec "+def+"\n"), 0o755))
+		return w
+	}
+	id := func(s string) string { return s }
+	errs, lerr, log := lintWithTools(e, dir, src, sched, wrap, id)
+	n := 0
+	for _, t := range log {
+		if t.Ev == "S" && t.Role == "sc" {
+			n++
+		}
+	}
+	_, decoyErr := os.Stat(decoyLog)
+	if lerr != nil || n != 1 || len(errs) != 1 || decoyErr == nil {
+		return []failure{{What: fmt.Sprintf("tool configured by a path that contains a space: the script was passed %d times to it, %d diagnostics, error %v, decoy program at the first word run: %v", n, len(errs), lerr, decoyErr == nil),
+			Key: "toolpath:space", Extra: src}}
+	}
+	return nil
 }
 
 func genRun(r *hx.Rng, idx int, thorough bool, cap int) *runSpec {
@@ -1580,8 +1686,18 @@ func main() {
 			sum.Samples = append(sum.Samples, map[string]interface{}{"files": rs.Files, "sched": rs.Sched, "tasks": res.ntasks, "fatal": res.fatal, "diagnostics": res.ndiags})
 		}
 	}
+	for _, f := range twinCheck(e, *out) {
+		sum.OracleFails = append(sum.OracleFails, f)
+	}
+	sum.Evaluations++
+	sum.Dist["twin_script_runs"]++
+	for _, f := range toolPathCheck(e, *out) {
+		sum.OracleFails = append(sum.OracleFails, f)
+	}
+	sum.Evaluations++
+	sum.Dist["tool_path_with_space_runs"]++
 	sum.Nontrivial = nontrivial
-	sum.Rule = "real Linter runs (LintFiles with 1-4 files, Lint) on generated workflows (1-3 jobs, 0-4/6 steps, shells at step/job/workflow/runner level, scripts with 0-3 placeholders) with stand-in tools behaving per a seeded schedule (ok, issues, crash, signal, empty, garbage, unterminated, unstartable tool; latency profiles uniform / equal / one straggler / staggered) and seeded delays at every schedule point; non-trivial = at least one tool invocation"
+	sum.Rule = "real Linter runs (LintFiles with 1-4 files, Lint) on generated workflows (1-3 jobs, 0-4/6 steps, shells at step/job/workflow/runner level, scripts with 0-3 placeholders) with stand-in tools behaving per a seeded schedule (ok, issues, crash, signal, empty, garbage, a JSON value followed by more output, unterminated, unstartable tool; latency profiles uniform / equal / one straggler / staggered) and seeded delays at every schedule point; plus a run with run steps whose scripts are equal after placeholder replacement (each is passed to the tool) and a run whose tool path contains a space with a decoy program at its first word; non-trivial = at least one tool invocation"
 	sum.Extra["cap"] = e.cap
 	sum.Extra["invocations"] = totalTasks
 	sum.Extra["runs_saturating_semaphore"] = saturated
